@@ -194,15 +194,26 @@ func (c *Ctx) chainResetFamily() {
 	hdr := "ltx.DecodeHeader(p3)#0"
 	h2 := "out:ltx.(*Header).UnmarshalBinary(&new(ltx.Header), new([100]byte)[:100])"
 	// ---- chain reset ----
-	c.BeforeG("chain-reset/forward", wl, p.PlainCalls("litefs.OS.Rename"), p.PlainCalls("litefs.removeFilesExcept"), gs(GP(isSnap, false)), 1, "a snapshot removes the other LTX files before it is renamed into place (WriteLTXFileAt)", "C09: a received snapshot replaces the whole chain")
-	for _, in := range Instrs(c.F(wl), p.PlainCalls("litefs.removeFilesExcept")) {
-		c.Expect("chain-reset/forward/excepted", c.argR(in, 2), pat("path/filepath.Split((litefs.(*DB).LTXPath(p0, "+h2+".MinTXID, "+h2+".MaxTXID) + \".tmp\"))#1"), "the file kept is the temp file about to be renamed", "excepting the final name would delete the temp file")
+	rmx := p.PlainCalls("litefs.removeFilesExcept")
+	c.BeforeG("chain-reset/forward", wl, p.SuccessReturn, rmx, gs(GP(isSnap, false)), 1, "a snapshot written by WriteLTXFileAt has removed the other LTX files before success is reported", "C09: a received snapshot replaces the whole chain")
+	for _, f := range []struct{ fn, short string }{{wl, "forward"}, {pl, "replica"}} {
+		c.Before("chain-reset/"+f.short+"/publish-before-destroy", f.fn, rmx, p.PlainCalls("litefs.OS.Rename"), 1, f.short+": the other LTX files are removed only after the snapshot file was renamed into place", "removing first leaves the directory without any transaction file if the process dies or the rename fails: the restart reports position zero for a database that still has its pages")
+		c.Guarded("chain-reset/"+f.short+"/publish-synced-before-destroy", f.fn, rmx, gs(G(`\(nil == internal\.Sync\(.*\)\)|\(internal\.Sync\(.*\) == nil\)`, true)), 1, f.short+": ... and the directory entry of the new file was synced", "")
+	}
+	for _, in := range Instrs(c.F(wl), rmx) {
+		c.Expect("chain-reset/forward/excepted", c.argR(in, 2), pat("path/filepath.Split(litefs.(*DB).LTXPath(p0, "+h2+".MinTXID, "+h2+".MaxTXID))#1"), "the file kept is the published snapshot", "excepting any other name deletes the snapshot just published")
 	}
 	c.verifyBeforeDestroy("chain-reset/forward")
 	c.BeforeG("chain-reset/replica", pl, p.PlainCalls("litefs.(*DB).ApplyLTXNoLock"), p.PlainCalls("litefs.removeFilesExcept"), gs(GP(isSnap, false)), 1, "a snapshot removes the other LTX files before it is applied (processLTXStreamFrame)", "Open recovers to the highest TXID on disk")
 	for _, in := range Instrs(c.F(pl), p.PlainCalls("litefs.removeFilesExcept")) {
 		c.Expect("chain-reset/replica/excepted", c.argR(in, 2), pat("path/filepath.Split(litefs.(*DB).LTXPath("+db+", "+hdr+".MinTXID, "+hdr+".MaxTXID))#1"), "the file kept is the published snapshot", "")
 	}
+	// a streamed file is validated before it is published (as WriteLTXFileAt does)
+	tmpDec := pat("ltx.(*Decoder).Verify(ltx.NewDecoder(litefs.OS.Create(p0.OS, \"PROCESSLTX\", @@)#0))")
+	verified := G(`\(nil == `+tmpDec+`\)|\(`+tmpDec+` == nil\)`, true)
+	c.Guarded("accept/stream/verified-before-rename", pl, p.PlainCalls("litefs.OS.Rename"), gs(verified), 1, "processLTXStreamFrame renames a received file into the LTX directory only after ltx verification of that temporary file succeeded", "a file with a corrupt body is otherwise published, its pages are written into the database and only then the checksum failure stops the node, leaving the corrupt file as the newest transaction")
+	c.Before("accept/stream/verify-after-copy", pl, p.CallWhere("ltx.(*Decoder).Verify", "PROCESSLTX"), p.PlainCalls("io.Copy"), 1, "... the verification reads the file after it was copied completely", "")
+	c.forwardedExtends("accept/forwarded")
 	rf := "litefs.removeFilesExcept"
 	c.Guarded("chain-reset/keeps-excepted", rf, p.PlainCalls("litefs.OS.Remove"), gs(GP("(os.DirEntry.Name(@@) == p2)", false)), 1, "removeFilesExcept never removes the excepted name", "")
 	c.OnlyGuards("chain-reset/removes-all-others", rf, p.PlainCalls("litefs.OS.Remove"), []*Guard{
@@ -222,7 +233,34 @@ func (c *Ctx) verifyBeforeDestroy(prefix string) {
 		"the existing LTX files are removed only after the incoming snapshot passed ltx verification", "a truncated or corrupt body with a snapshot header must be rejected without touching the transaction log")
 	c.Before(prefix+"/destroy-after-copy", wl, rm, p.PlainCalls("io.Copy"), 1, "... and only after the body was copied completely", "")
 	c.Guarded(prefix+"/destroy-after-sync", wl, rm, gs(G(`\(nil == os\.\(\*File\)\.Sync\(.*\)\)|\(os\.\(\*File\)\.Sync\(.*\) == nil\)`, true)), 1, "... and synced", "")
+	c.pageSizeBeforeCreate(prefix)
+	c.Guarded(prefix+"/destroy-snapshot-only", wl, rm, gs(GP("ltx.(*Header).IsSnapshot(@@)", true)), 1, "only a snapshot (MinTXID 1) replaces the chain", "")
+}
+
+// pageSizeBeforeCreate: WriteLTXFileAt writes an incoming file only when its
+// page size can be applied (also the part of the family that matters for POST
+// /tx, whose handler refuses files that do not extend the position itself).
+func (c *Ctx) pageSizeBeforeCreate(prefix string) {
+	p := c.P
+	wl := "litefs.(*DB).WriteLTXFileAt"
 	c.GuardedPaths(prefix+"/page-size-before-create", wl, p.PlainCalls("litefs.OS.Create"), [][]*Guard{{GP("(0 == p0.pageSize)", true), G(`\(.*\.PageSize == p0\.pageSize\)|\(p0\.pageSize == .*\.PageSize\)`, true)}}, 1,
 		"the incoming file is written only when the database's page size is unknown or equals the file's", "a file with another page size is published, the fatal apply fails in writeDatabasePage and the node exits (POST /tx from the lock holder, restore from backup)")
-	c.Guarded(prefix+"/destroy-snapshot-only", wl, rm, gs(GP("ltx.(*Header).IsSnapshot(@@)", true)), 1, "only a snapshot (MinTXID 1) replaces the chain", "")
+}
+
+// forwardedExtends: POST /tx hands the body to WriteLTXFileAt only after the
+// header it read from the body extends the database's current position
+// exactly (WriteLTXFileAt itself exempts snapshot-shaped files, for restores).
+func (c *Ctx) forwardedExtends(prefix string) {
+	p := c.P
+	tx := "http.(*Server).handlePostTx"
+	wl := p.PlainCalls("litefs.(*DB).WriteLTXFileAt")
+	hdr := "out:ltx.(*Header).UnmarshalBinary(&new(ltx.Header), new([100]byte)[:100])"
+	pos := "litefs.(*DB).Pos(litefs.(*Store).DB(@@))"
+	txid := G(pat("(("+pos+".TXID + 1) == "+hdr+".MinTXID)")+"|"+pat("("+hdr+".MinTXID == ("+pos+".TXID + 1))"), true)
+	chk := G(pat("("+pos+".PostApplyChecksum == "+hdr+".PreApplyChecksum)")+"|"+pat("("+hdr+".PreApplyChecksum == "+pos+".PostApplyChecksum)"), true)
+	why := "a file shaped like a snapshot (min TXID 1) is accepted by WriteLTXFileAt at any position: forwarded by the lock holder it replaces the primary's whole log and rewinds its position"
+	c.Guarded(prefix+"/extends-txid", tx, wl, gs(txid), 1, "POST /tx copies the body only when the header's min TXID is the current TXID + 1", why)
+	c.Guarded(prefix+"/extends-checksum", tx, wl, gs(chk), 1, "... and its pre-apply checksum is the current position's checksum", why)
+	c.Guarded(prefix+"/header-decoded", tx, wl, gs(G(`\(nil == ltx\.\(\*Header\)\.UnmarshalBinary\(.*\)\)|\(ltx\.\(\*Header\)\.UnmarshalBinary\(.*\) == nil\)`, true)), 1, "... after the header was read and decoded", "")
+	c.ExpectAll(prefix+"/same-bytes-forwarded", c.CallArgs(tx, wl, 2), pat("io.MultiReader([bytes.NewReader(new([100]byte)[:100]), p2.Body])"), 1, "the bytes handed on are the inspected header followed by the rest of the body", "")
 }
